@@ -1,7 +1,7 @@
 (* FrameC's block compressor instantiated with the model of LZ4_compress_HC_continue at levels 3..12 (Model.HcTabStream /
    Model.HcOptStream: hash chain and optimal parser on one stream model), i.e. what lz4frame.c calls from level 3 on for
    LINKED blocks (LZ4F_compressBlockHC_continue), with the capacity srcSize-1.
-   Same explicit memory-model glue as Proofs.BlkInstLinked: the oracle gives memory, stream context, block address and the
+   Same explicit memory-model glue as Proofs.BlkInstFastLinked: the oracle gives memory, stream context, block address and the
    byte history designated by the context; the instance compresses only if that is consistent with the block and the
    history FrameC offers.  The invariants asked of the oracle are those every legal stream session maintains
    (C11_hc_opt_stream; the history invariant of the EFFECTIVE context is what C11_hc_opt_write_block provides).
